@@ -280,6 +280,9 @@ func Project(credJSON []byte, bjj bool) Top {
 	v.DIDStr = idata.ID
 	if d, err := w3c.ParseDID(idata.ID); err == nil {
 		v.DID = d
+		// DIDs are identified by their form without the query (the verifier overwrites the
+		// query with state=..., the stub resolver is keyed the same way)
+		v.DIDStr, _ = SplitDID(d)
 	}
 	t.Typed = v
 	return t
@@ -844,8 +847,6 @@ func (s *Shard) Add(id int, t Top, env Env, obs int) {
 		st := s.def("st", v.State.coq())
 		did := "None"
 		if v.DID != nil {
-			base, _ := SplitDID(v.DID)
-			_ = base
 			did = fmt.Sprintf("(Some %d)", s.Rec.DIDNum(v.DIDStr))
 		}
 		if s.BJJ {
